@@ -24,6 +24,9 @@ func (ex *Exec) execCall(fr *Frame, st *State, c *ssa.CallCommon, instr *ssa.Cal
 			env.results = rs
 			ex.assume(st, ex.evalBool(env, ca.Cl.E))
 			ex.trustedUsed["assumed after call "+key+": "+ca.Cl.Src] = true
+			// vacuity guard: the assumption must not contradict what is known on this path
+			ex.obs = append(ex.obs, &Obligation{Name: fnKey(ex.top) + "#cover:assume_after:" + key + ":" + ca.Cl.Label, Kind: "cover", Fn: fnKey(ex.top), Cover: true,
+				Src: "assume_after " + ca.Cl.Src, Hyps: append(append([]*Term{}, ex.assumptions...), st.pc...), ex: ex, st: st.clone()})
 		}
 	}
 	return rs
@@ -217,6 +220,42 @@ func (ex *Exec) havocReachable(st *State, v Val, depth int) {
 		l := layoutOf(v.T)
 		for i := range l.Fields {
 			ex.havocReachable(st, structField(v, i), depth+1)
+		}
+	}
+}
+
+// havocScalars gives the scalar (non-reference) contents reachable from v arbitrary values and keeps the reference
+// structure (pointers, slice headers, interfaces): the model of a recycled object.
+func (ex *Exec) havocScalars(st *State, v Val, depth int) {
+	if depth > 3 || v.Const != nil {
+		return
+	}
+	switch u := v.T.Underlying().(type) {
+	case *types.Pointer:
+		loc := ex.locOf(v)
+		cur := st.load(loc)
+		l := layoutOf(loc.T)
+		nv := Val{T: cur.T, L: append([]*Term{}, cur.L...)}
+		for i, lf := range l.Leaves {
+			if lf.Kind == LScalar && lf.Lift == 0 {
+				nv.L[i] = FreshVar("hv", lf.S)
+			}
+		}
+		st.store(loc, nv)
+		ex.havocScalars(st, nv, depth+1)
+	case *types.Slice:
+		el := layoutOf(u.Elem())
+		for j, lf := range el.Leaves {
+			if lf.Kind != LScalar || lf.Lift > 0 {
+				continue
+			}
+			_, k, cur := st.memInner(u.Elem(), j, sliceArr(v))
+			st.set(k, Store(cur, sliceArr(v), FreshVar("hvmem", ArrS(BVS(64), lf.S))))
+		}
+	case *types.Struct:
+		l := layoutOf(v.T)
+		for i := range l.Fields {
+			ex.havocScalars(st, structField(v, i), depth+1)
 		}
 	}
 }
@@ -415,6 +454,30 @@ func (ex *Exec) havocTarget(env *Env, st *State, m *ModTarget) {
 		base := ex.eval(env, m.Base)
 		loc := ex.locOf(base)
 		st.store(loc, freshVal(loc.T, "mod"))
+	case ModWindow:
+		base := ex.eval(env, m.Base)
+		sl, ok := base.T.Underlying().(*types.Slice)
+		if !ok {
+			panic(unsupported("modifies window of a non-slice: " + m.Src))
+		}
+		el := layoutOf(sl.Elem())
+		off, ln := sliceOff(base), sliceLen(base)
+		for j, lf := range el.Leaves {
+			inner, k, cur := st.memInner(sl.Elem(), j, sliceArr(base))
+			var nv *Term
+			if ln.Op == "bvconst" && ln.BigVal().Int64() <= 16 {
+				nv = inner
+				for q := int64(0); q < ln.BigVal().Int64(); q++ {
+					nv = Store(nv, BVBin("bvadd", off, BVI(q, 64)), FreshVar("hvwin", lf.S))
+				}
+			} else {
+				nv = FreshVar("hvwin", ArrS(BVS(64), lf.S))
+				i := BoundVar("wi", BVS(64))
+				outside := Or(BVCmp("bvslt", i, off), BVCmp("bvsge", i, BVBin("bvadd", off, ln)))
+				ex.assume(st, Forall([]*Term{i}, Implies(outside, Eq(Select(nv, i), Select(inner, i)))))
+			}
+			st.set(k, Store(cur, sliceArr(base), nv))
+		}
 	case ModElems:
 		base := ex.eval(env, m.Base)
 		switch base.T.Underlying().(type) {
@@ -455,10 +518,7 @@ func subFieldLoc(loc *Loc, field string) *Loc {
 	lo := layoutOf(loc.T)
 	for _, f := range lo.Fields {
 		if f.Name == field {
-			nl := *loc
-			nl.Off += f.Off
-			nl.T = f.T
-			return &nl
+			return offLoc(loc, f.Off, f.T)
 		}
 	}
 	panic(fmt.Sprintf("no field %s in %s", field, loc.T))
@@ -474,10 +534,7 @@ func (ex *Exec) fieldLoc(base Val, field string) *Loc {
 	lo := layoutOf(loc.T)
 	for _, f := range lo.Fields {
 		if f.Name == field {
-			nl := *loc
-			nl.Off += f.Off
-			nl.T = f.T
-			return &nl
+			return offLoc(loc, f.Off, f.T)
 		}
 	}
 	panic(fmt.Sprintf("no field %s in %s", field, loc.T))
@@ -787,4 +844,15 @@ func (ex *Exec) ifaceFunctional(it types.Type, method string, sig *types.Signatu
 	}
 	ex.trustedUsed["interface method treated as a function of its receiver: "+normKey(it)+"."+method] = true
 	return out
+}
+
+// offLoc: the location of a part (leaf offset off, type t) of loc, following the alternative location too.
+func offLoc(loc *Loc, off int, t types.Type) *Loc {
+	nl := *loc
+	nl.Off += off
+	nl.T = t
+	if loc.Alt != nil {
+		nl.Alt = offLoc(loc.Alt, off, t)
+	}
+	return &nl
 }
